@@ -110,6 +110,10 @@ func doDump(w *World, what string) {
 				}
 			}
 		}
+	case what == "mapranges":
+		dumpMapRanges(w)
+	case what == "nondet":
+		dumpNondet(w)
 	case what == "blockloops":
 		br := blockReachable(w)
 		var names []string
